@@ -50,6 +50,15 @@ type c21Case struct {
 	// without the trigger bit (channel 4: NR43 in both cases). The new period applies from the next timer reload,
 	// so the first two steps after the write are not judged.
 	Retune int `json:"retune,omitempty"`
+	// During: writes to registers of the *other* channels (triggers included) made while the measured channel is
+	// being observed, At machine cycles after the measured trigger: they must not disturb its step timing.
+	During []c21Timed `json:"during,omitempty"`
+}
+
+type c21Timed struct {
+	At int    `json:"at"`
+	A  uint16 `json:"a"`
+	V  uint8  `json:"v"`
 }
 
 var c21ROM = machine.MakeROM(0, 0, 0)
@@ -225,7 +234,17 @@ func c21Run(cas c21Case) (sig string, err error) {
 	last := pos()
 	var evs []c21Ev
 	var s int64
+	for _, w := range cas.During {
+		if c21ChannelOf(w.A) == cas.Ch-1 || !c21CtxAllowed(cas.Ch, w.A, w.V) || w.At < 0 {
+			return "bad-case", fmt.Errorf("write %04x=%02x during the observation touches the measured channel", w.A, w.V)
+		}
+	}
 	for c := int64(1); c <= n; c++ {
+		for _, w := range cas.During {
+			if int64(w.At) == c-1 {
+				hw.Mp.Write(w.A, w.V)
+			}
+		}
 		hw.HW()
 		p := pos()
 		if p != last {
@@ -380,6 +399,123 @@ func c21Lfsr(hw *machine.M, cas c21Case, P int64) (string, error) {
 	return "", nil
 }
 
+// c21Sweep: channel 1 retuned by its own frequency sweep. The documented sequence f(k+1) = f(k) +/- (f(k) >> s)
+// is applied every p sweep clocks (128 Hz); every interval between two duty steps must be 4 x (2048 - f(k)) clocks
+// for the k in force when the interval began. When exactly the first sweep clock falls is not asserted: k may be
+// any of the counts compatible with a first clock anywhere in the first sweep period.
+type c21Sweep struct {
+	F0     int  `json:"f0"`
+	Period int  `json:"period"` // 1-7
+	Shift  int  `json:"shift"`  // 1-7
+	Down   bool `json:"down"`
+	Pre    int  `json:"pre"`
+}
+
+func c21RunSweep(c c21Sweep) (sig string, err error) {
+	defer vf.Recover(&sig, &err)
+	if c.F0 < 0 || c.F0 > 2047 || c.Period < 1 || c.Period > 7 || c.Shift < 1 || c.Shift > 7 || c.Pre < 0 || c.Pre > 1<<20 {
+		return "bad-case", fmt.Errorf("case outside the domain: %+v", c)
+	}
+	hw := machine.NewHW(c21ROM, nil, false)
+	for i := 0; i < c.Pre; i++ {
+		hw.HW()
+	}
+	hw.Mp.Write(0xff26, 0x00)
+	hw.Mp.Write(0xff26, 0x80)
+	hw.Mp.Write(0xff12, 0xf0)
+	nr10 := uint8(c.Period<<4 | c.Shift)
+	if c.Down {
+		nr10 |= 0x08
+	}
+	hw.Mp.Write(0xff10, nr10)
+	c21Start(hw, 1, c.F0)
+	// the documented frequency sequence
+	fs := []int{c.F0}
+	for len(fs) < 8 {
+		f := fs[len(fs)-1]
+		d := f >> uint(c.Shift)
+		if c.Down {
+			f -= d
+		} else {
+			f += d
+		}
+		if f > 2047 {
+			break // overflow: the channel is switched off (C19's business)
+		}
+		fs = append(fs, f)
+	}
+	const S = 8192 // machine cycles per sweep clock (128 Hz)
+	pS := int64(c.Period) * S
+	total := int64(len(fs)+1) * pS
+	if total > 5*pS {
+		total = 5 * pS
+	}
+	last := hw.A.VerifDuty(1)
+	var at []int64
+	for t := int64(1); t <= total; t++ {
+		hw.HW()
+		if hw.Mp.Read(0xff26)&1 == 0 {
+			break
+		}
+		if d := hw.A.VerifDuty(1); d != last {
+			last = d
+			at = append(at, t)
+		}
+	}
+	judged := 0
+	for i := 0; i+1 < len(at); i++ {
+		iv := 4 * (at[i+1] - at[i])
+		q := int(at[i] / pS)
+		ok := false
+		var want []int64
+		for k := q - 1; k <= q+1; k++ {
+			if k < 0 || k >= len(fs) {
+				continue
+			}
+			P := int64(4 * (2048 - fs[k]))
+			want = append(want, P)
+			ok = ok || iv == P
+		}
+		if len(want) == 0 {
+			continue
+		}
+		judged++
+		if !ok {
+			sig = "square-sweep-period-not-followed"
+			if iv == int64(4*(2048-c.F0)) {
+				sig = "square-sweep-period-stale"
+			}
+			return sig, fmt.Errorf("channel 1 started at f=%d with NR10=%02x: the duty step interval beginning %d cycles after the trigger is %d clocks; the sweep has by then produced f=%v, so 4x(2048-f) is one of %v",
+				c.F0, nr10, at[i], iv, fs[c21Max(0, q-1):c21Min(len(fs), q+2)], want)
+		}
+	}
+	return "", nil
+}
+
+func c21Max(a, b int) int {
+	if a > b {
+		return a
+	}
+	return b
+}
+
+func c21Min(a, b int) int {
+	if a < b {
+		return a
+	}
+	return b
+}
+
+func init() {
+	vf.RegisterReplay("C21/sweep", func(raw json.RawMessage) (string, error) {
+		var c c21Sweep
+		if err := json.Unmarshal(raw, &c); err != nil {
+			return "", err
+		}
+		return c21RunSweep(c)
+	})
+}
+
 func init() {
 	for _, name := range []string{"tone", "noise-timing", "noise-lfsr", "tone-ctx", "noise-timing-ctx", "noise-lfsr-ctx"} {
 		vf.RegisterReplay("C21/"+name, func(raw json.RawMessage) (string, error) {
@@ -455,7 +591,7 @@ func (e *c21Enum) run(class string, cas c21Case, sampleIt bool) {
 
 func TestC21(t *testing.T) {
 	c := vf.New(t, "C21", "enumeration: channels 1-3 x every frequency 0-2047 (trigger on a clean power cycle, >= 8 steps observed), channel 4 x every NR43 with s <= 13 (224 values, >= 5 steps), LFSR output stream for 15-bit mode at the fastest clocks (thorough: every r, s <= 3) and 7-bit mode (quick: every r, s <= 5; thorough: every r, s <= 13); "+
-		"rapid: the same measurements in a drawn context (0-5000 cycles before power-on, up to 12 writes to registers the measurement does not depend on, including starting other channels, optionally the measured channel first running at another frequency for 0-20000 cycles before the re-trigger, or retuned while running by a write to NRx3 alone / NRx3+NRx4 without a trigger / NR43). "+
+		"rapid: the same measurements in a drawn context (0-5000 cycles before power-on, up to 12 writes to registers the measurement does not depend on, including starting other channels, optionally the measured channel first running at another frequency for 0-20000 cycles before the re-trigger, or retuned while running by a write to NRx3 alone / NRx3+NRx4 without a trigger / NR43; other channels written and triggered during the observation); channel 1 retuned by its own frequency sweep. "+
 		"Non-trivial: a timing measurement that observed at least 4 steps after the first, or an LFSR stream of more than two periods. Enumerated cases are distinct by construction; rapid cases distinct by hash.")
 	defer c.Flush()
 	c.RunReplays()
@@ -515,6 +651,36 @@ func TestC21(t *testing.T) {
 		}
 	})
 
+	c.Sub("sweep-retune", func(t *testing.T) {
+		var n int64
+		idx := 0
+		for _, f0 := range []int{300, 700, 1024, 1400, 1800, 1990} {
+			for _, p := range []int{1, 2, 3} {
+				for _, sh := range []int{1, 2, 3, 5, 7} {
+					for _, down := range []bool{false, true} {
+						idx++
+						if !c.Env.Mine(idx) {
+							continue
+						}
+						cas := c21Sweep{F0: f0 + idx%7, Period: p, Shift: sh, Down: down, Pre: (idx * 977) % 5000}
+						sig, err := c21RunSweep(cas)
+						n++
+						if idx%23 == 0 {
+							c.Sample("enum:sweep-retune", cas)
+						}
+						if err != nil {
+							if known, first := c.FailFirst("sweep", sig, err.Error(), cas); !known && first {
+								t.Errorf("%v", err)
+							}
+						}
+					}
+				}
+			}
+		}
+		c.Bulk("enum:sweep-retune", n, n)
+		c.Exhaustive("channel 1 with its frequency sweep running: 6 start frequencies x sweep periods 1-3 x shifts {1,2,3,5,7} x both directions, every duty step interval over up to 5 sweep periods")
+	})
+
 	c.Rapid("context", 1600, 40000, func(rt *rapid.T) {
 		cas := c21Case{Ch: rapid.IntRange(1, 4).Draw(rt, "ch"), F0: -1}
 		drawF := func(label string) int {
@@ -567,7 +733,30 @@ func TestC21(t *testing.T) {
 				}
 			}
 		}
+		if !cas.Lfsr && rapid.Bool().Draw(rt, "during") {
+			span := (cas.Steps + 1) * c21Period(cas.Ch, cas.F) / 4
+			var others []uint16
+			for _, a := range []uint16{0xff12, 0xff14, 0xff17, 0xff19, 0xff1a, 0xff1e, 0xff21, 0xff23, 0xff13, 0xff18, 0xff1d, 0xff22, 0xff10} {
+				if c21ChannelOf(a) != cas.Ch-1 {
+					others = append(others, a)
+				}
+			}
+			cas.During = rapid.SliceOfN(rapid.Custom(func(rt *rapid.T) c21Timed {
+				a := rapid.SampledFrom(others).Draw(rt, "da")
+				v := rapid.Byte().Draw(rt, "dv")
+				if a == 0xff14 || a == 0xff19 || a == 0xff1e || a == 0xff23 {
+					v |= 0x80 // triggers
+				}
+				if a == 0xff12 || a == 0xff17 || a == 0xff21 {
+					v |= 0xf0
+				}
+				return c21Timed{At: rapid.IntRange(0, span).Draw(rt, "dat"), A: a, V: v}
+			}), 1, 8).Draw(rt, "during-writes")
+		}
 		class := fmt.Sprintf("context:ch%d", cas.Ch)
+		if len(cas.During) > 0 {
+			c.Class("feat:other-channels-written-during-the-observation", 1)
+		}
 		if cas.Lfsr {
 			class = "context:ch4-lfsr-7bit"
 		}
